@@ -285,6 +285,31 @@ def removeFirst : List (Data Rat) → Data Rat → Except Err (List (Data Rat))
       | .ok r => .ok (c :: r)
       | .error e => .error e
 
+/-! ### Closeness on non-finite values (`np.allclose(…, equal_nan=True)` as `__eq__` calls it) -/
+
+/-- A `float64` entry: finite (its exact rational value), NaN, +∞ or −∞. -/
+inductive XVal
+  | fin (q : Rat)
+  | nan
+  | pinf
+  | ninf
+  deriving DecidableEq, Repr
+
+/-- One entry of `np.isclose(a, b, equal_nan=True)`: NaN is close to NaN only; an infinity is close to
+the infinity of the same sign only; finite entries by `|a − b| ≤ atol + rtol·|b|`. -/
+def closeX : XVal → XVal → Bool
+  | .fin a, .fin b => close a b
+  | .nan, .nan => true
+  | .pinf, .pinf => true
+  | .ninf, .ninf => true
+  | _, _ => false
+
+/-- `np.allclose` on two arrays of the same shape (flattened). -/
+def closeListX : List XVal → List XVal → Bool
+  | [], [] => true
+  | a :: v, b :: w => closeX a b && closeListX v w
+  | _, _ => false
+
 /-! ### Exact equality: the special case in which `==` is an equivalence relation -/
 
 /-- Same class, same sampling points, *equal* values (irregular: label by label, whatever the order
